@@ -27,7 +27,11 @@ EXTENDS Integers, Sequences, FiniteSets, SequencesExt, TLC
 CONSTANTS Threads, Texts, Extractors,   \* Extractors: 1..N, list order = numeric order
           MatchOf,      \* [Texts -> SUBSET Extractors]: extractors whose pattern matches
           TieOf,        \* [Texts -> SUBSET Extractors]: of those, a group matching ONE span without merging
-          SetOrder, SharedSel, MaxCalls
+          MergeOf,      \* [Texts -> SUBSET Extractors]: of those, a group matching one span with the same groups:
+                        \* their tokens MERGE, the merged token lists the candidate editions of all of them
+          SetOrder, SharedSel, MaxCalls,
+          EdSetOrder    \* TRUE: the original CitationToken.merge (editions de-duplicated through set(): the order of
+                        \* the merged candidate editions is hash order); FALSE: the repaired code (first-seen order)
 
 VARIABLES perm,     \* hash seed: a permutation of Extractors (iteration order of a set)
           cache,    \* shared: extractors whose pattern has been compiled
@@ -41,13 +45,16 @@ Perms == {p \in [1..Cardinality(Extractors) -> Extractors] : \A a, b \in DOMAIN 
 ListOrder == SetToSortSeq(Extractors, <)
 OrderOf(S) == SelectSeq(IF SetOrder THEN perm ELSE ListOrder, LAMBDA e : e \in S)
 
-(* the winners: every matching extractor outside the tie group, and the FIRST of the tie group *)
+(* the winners: every matching extractor outside the tie group, and the FIRST of the tie group;
+   and the candidate editions of the merged token, a SEQUENCE (the attribute is a tuple) *)
 Result(t, order) ==
     LET m == SelectSeq(order, LAMBDA e : e \in MatchOf[t])
         ties == SelectSeq(m, LAMBDA e : e \in TieOf[t])
-    IN  {m[k] : k \in DOMAIN m} \ (IF ties = <<>> THEN {} ELSE {ties[k] : k \in 2..Len(ties)})
-(* the specification of the function: list order *)
-F(t) == Result(t, ListOrder)
+        mg == SelectSeq(m, LAMBDA e : e \in MergeOf[t])
+    IN  [win |-> {m[k] : k \in DOMAIN m} \ (IF ties = <<>> THEN {} ELSE {ties[k] : k \in 2..Len(ties)}),
+         eds |-> IF EdSetOrder THEN SelectSeq(perm, LAMBDA e : e \in {mg[k] : k \in DOMAIN mg}) ELSE mg]
+(* the specification of the function: list order, merged editions in list order *)
+F(t) == [win |-> Result(t, ListOrder).win, eds |-> SelectSeq(ListOrder, LAMBDA e : e \in MatchOf[t] \cap MergeOf[t])]
 
 Init == /\ perm \in Perms /\ cache = {} /\ shsel = <<>>
         /\ pc = [th \in Threads |-> "idle"] /\ txt = [th \in Threads |-> CHOOSE t \in Texts : TRUE]
